@@ -205,6 +205,16 @@ def tree_names(ind):
     return names
 
 
+def _batch_raises(spec, stream):
+    """does a plain batch run over some prefix of the stream raise as well?"""
+    for k in range(1, len(stream) + 1):
+        try:
+            run_batch(spec, stream[:k])
+        except Exception:
+            return True
+    return False
+
+
 def c14_check(scn):
     spec, stream, prog = scn["spec"], scn["stream"], scn["program"]
     ind = specs.build_indicator(spec, [])
@@ -248,10 +258,14 @@ def c14_check(scn):
                     return {"clause": "calculate_index-differs", "observed": {"i": i, "negative": not op[2], **(first_diff(before, after) or {})},
                             "expected": "recomputing a computed index reproduces it"}
         except Exception as e:
+            if _batch_raises(spec, stream[: consumed + (op[1] if op[0] == "append" else 0)]):
+                return None  # the indicator itself cannot digest this input (C09's subject), not the maintenance operation
             return {"clause": f"{op[0]}-raises", "observed": repr(e), "expected": "no exception"}
     try:
         ind.calculate()
     except Exception as e:
+        if _batch_raises(spec, stream[:consumed]):
+            return None
         return {"clause": "final-calculate-raises", "observed": repr(e), "expected": "no exception"}
     try:
         twin = run_batch(spec, stream[:consumed])
@@ -537,6 +551,8 @@ def c14_hexital_check(scn):
                                     "expected": "entries of other indicators untouched"}
         hx.calculate()
     except Exception as e:
+        if any(_batch_raises(sp, stream) for sp in scn["members"]):
+            return None
         return {"clause": "raises", "observed": repr(e), "expected": "no exception"}
     final = snapshot(hx.candles())
     for sp, nm in zip(scn["members"], names):
